@@ -24,6 +24,7 @@
 #include "config.hpp"
 #include "pest_host_table.hpp"
 #include "utils.hpp"
+#include "verif_hooks.hpp"
 
 namespace pops {
 
@@ -455,6 +456,11 @@ private:
             return hosts[0];
         }
         std::discrete_distribution<int> distribution{weights.begin(), weights.end()};
+#ifdef POPS_CORE_VERIF
+        int verif_picked_index = distribution(generator);
+        POPS_VERIF_EVENT("pick", generator, static_cast<double>(verif_picked_index));
+        return hosts.at(verif_picked_index);
+#endif
         return hosts.at(distribution(generator));
     }
 
